@@ -29,7 +29,7 @@ func init() {
 		ID:    "C11",
 		Level: "exploration",
 		Rule: "case = (pattern, input, build variant default | coraza.rule.no_regex_multiline). Patterns: (1) every regex AST up to the tier's node bound " +
-			"(quick 4, thorough 5) over the atoms {a ab abc bc K ſ . [ab] \\d \\xff ^ $ \\A \\z (?i)} and constructors {concat (free), |, (…), ?, *, +, {2}, (?i:…)} " +
+			"(quick 4, thorough 5) over the atoms {a ab abc bc Bc K ſ . [ab] \\d \\xff ^ $ \\A \\z (?i)} and constructors {concat (free), |, (…), ?, *, +, {2}, (?i:…)} " +
 			"with (?:…) inserted where precedence needs it, one per printed form; (2) one more level (quick 5, thorough 6) over the reduced atoms " +
 			"{a ab bc . \\A $ (?i)}; (3) every distinct @rx argument of the bundled CRS (explicit or implicit operator); (4) fixed witnesses. " +
 			"Inputs: every sequence of at most L symbols over the pattern's own alphabet (its literal bytes, a foreign byte, \\n, \\xff, a digit, " +
